@@ -8,6 +8,7 @@ package main
 
 import (
 	"fmt"
+	"os"
 	"go/types"
 	"strconv"
 	"strings"
@@ -425,17 +426,27 @@ func (in *Interp) fmtInt(t *Term, signed bool, base int, upper bool) *StrV {
 			mag = tt.Neg(t)
 		}
 	}
-	// upper bound by bisection (unsigned)
-	lo, hi := uint64(0), mask(mag.w)
-	for lo < hi {
-		mid := lo + (hi-lo)/2
-		if in.feasible(tt.Cmp(OpUlt, tt.Const(mag.w, mid), mag)) {
-			lo = mid + 1
-		} else {
-			hi = mid
+	// upper bound: from range analysis when available, else by bisection (unsigned)
+	var maxv uint64
+	minv := uint64(0)
+	if lo, hi, ok := tt.rng(mag, 0); ok && hi >= 0 && (lo >= 0 || signed) {
+		// when signed, the sign was decided above, so mag >= 0 on this path
+		maxv, minv = uint64(hi), uint64(max(lo, 0))
+	} else {
+		if in.verbose {
+			fmt.Fprintf(os.Stderr, "  fmtInt: no range for %s\n", mag.Dump(8))
 		}
+		lo, hi := uint64(0), mask(mag.w)
+		for lo < hi {
+			mid := lo + (hi-lo)/2
+			if in.feasible(tt.Cmp(OpUlt, tt.Const(mag.w, mid), mag)) {
+				lo = mid + 1
+			} else {
+				hi = mid
+			}
+		}
+		maxv = hi
 	}
-	maxv := hi
 	// narrowest width
 	w := uint8(8)
 	for w < mag.w && maxv > mask(w) {
@@ -463,6 +474,9 @@ func (in *Interp) fmtInt(t *Term, signed bool, base int, upper bool) *StrV {
 		}
 		d := in.decide(maxDigits, func(i int) bool {
 			// i+1 digits: base^i <= m (for i>0) and m < base^(i+1)
+			if i+1 < maxDigits && pows[i+1] <= minv {
+				return false // every feasible value has more digits
+			}
 			c := tt.True
 			if i > 0 {
 				c = tt.Cmp(OpUle, tt.Const(w, pows[i]), m)
